@@ -1319,6 +1319,29 @@ def r10_flag_writers_and_pairing(facts):
         for f_, v in ws:
             if f_ not in want_api[b["name"]]:
                 problems.append("%s() also writes %s" % (b["name"], f_))
+        # start_tracking / stop_tracking return the PREVIOUS value of is_tracked and nothing else
+        if b["name"] in ("start_tracking", "stop_tracking") and (b.get("output") or "") == "bool":
+            tl = strip(base.root(b))
+            while isinstance(tl, dict) and tl.get("k") == "Block" and tl.get("e") is not None:
+                blk_lets = {st["pat"]["v"]: st["init"] for st in tl["stmts"] if st["s"] == "let" and st["pat"].get("k") == "Binding" and st.get("init") is not None}
+                tl = strip(tl["e"])
+                if isinstance(tl, dict) and tl.get("k") == "VarRef" and tl["v"] in blk_lets:
+                    tl = strip(blk_lets[tl["v"]])
+            ok_ret = None
+            if isinstance(tl, dict) and tl.get("k") == "Call":
+                cn_ = callee(tl) or ""
+                r_, ch_ = field_chain(tl["args"][0]) if tl.get("args") else (None, None)
+                if cn_.startswith(CELL) and cn_.split("::")[-1] in ("replace", "get") and ch_ and ch_[-1] == "is_tracked":
+                    ok_ret = True
+                elif (tl.get("callee") or {}).get("resolved_local"):
+                    ok_ret = None       # a private helper: not read here
+                else:
+                    ok_ret = False
+            elif isinstance(tl, dict) and tl.get("k") in ("LogicalOp", "Binary", "Unary", "Literal"):
+                ok_ret = False
+            if ok_ret is False:
+                problems.append("%s() does not return the previous value of is_tracked alone (`%s`): the backward pass passes these values to the derivative as the operands' flags and restores tracking from them"
+                                % (b["name"], show(tl)[:60]))
         if problems:
             c.bad(inst, where, "; ".join(problems))
         elif unknown:
